@@ -87,9 +87,14 @@ H(k, o, f) == HV(k, o, f, 0, 0)
 E(k, o) == [t |-> "env", k |-> k, o |-> o, f |-> "", v |-> 0, g |-> 0, fk |-> ""]
 Log(e) == hist' = Append(hist, e)
 
+\* pre = "otherdel": the other claim's XR is being deleted and still held by its controller's finalizer (its composed
+\* resources are being torn down): its name is NOT free (added after the seeded change C06-m5 - a name generator that takes
+\* the name of a terminating object for available - was missed)
+PreOther(pre) == pre \in {"other", "otherdel"}
 PreXR(pre) == [NoXR EXCEPT !.ex = TRUE,
-                           !.cref = (IF pre = "other" THEN "other" ELSE IF pre = "mine" THEN "this" ELSE None),
-                           !.mf = (IF Syncer = "SSA" THEN (IF pre = "other" THEN "ssa" ELSE "legacy") ELSE "na")]
+                           !.cref = (IF PreOther(pre) THEN "other" ELSE IF pre = "mine" THEN "this" ELSE None),
+                           !.del = (pre = "otherdel"), !.fin = (pre = "otherdel"),
+                           !.mf = (IF Syncer = "SSA" THEN (IF PreOther(pre) THEN "ssa" ELSE "legacy") ELSE "na")]
 
 Init ==
   \E st \in Starts : LET pre == st[1] r0 == st[2] IN
